@@ -63,7 +63,7 @@ pub fn profile(prop: &str, tier: &str) -> Profile {
     let base = Profile {
         name: "base",
         threads: (2, 4),
-        max_ops: 6,
+        max_ops: if thorough { 10 } else { 6 },
         weights: cat(&[SENDS, RECVS, HANDLES]),
         caps: caps.clone(),
         pays: ALL_PAY.to_vec(),
